@@ -594,7 +594,7 @@ Qed.
 (* one behaviour applied to the exchange completed by flag f (untimed: the clock moves by d for a delay) *)
 Definition beh_events (b : beh) (f : flag) (t d kaval : N) : list (event * nat) :=
   match b with
-  | BAnswer => [(ESet f true, 0%nat)]
+  | BAnswer | BDup => [(ESet f true, 0%nat)]
   | BDelay => [(ETick (t + d), 0%nat); (ESet f true, 0%nat)]
   | BDrop => []
   | BMisaddr => [(ESet (f + 1000) true, 0%nat)]      (* a reply nobody waits for *)
